@@ -3,7 +3,7 @@ import RbV.Ref.SA
 import RbV.Model.Occ
 /-! Driver for property C04 (BWT, less, Occ for all sampling rates, inverse BWT).
 
-`c04 <text> k:<k> a:<alphabet> q:<query symbols> => <sa>;<bwt>;<less[c], c∈q>;<col(c)>/…;<inverse or ->`
+`c04 t <text> k:<k> a:<alphabet> q:<query symbols> => <sa>;<bwt>;<less[c], c∈q>;<col(c)>/…;<inverse or ->`
 
 * bwt      = `bwtRef text sa`                               (and the mirror `bwtModel`)
 * less[c]  = `lessRef bwt c`                                (and the mirror `lessModel bwt (max a + 2)`)
@@ -40,7 +40,7 @@ def dedupTags (l : List String) : List String :=
 
 def verdict (toks : List String) (out : String) : String :=
   match toks with
-  | [th, kf, af, qf] =>
+  | ["t", th, kf, af, qf] =>
     match parseHex th, (field kf).bind (fun p => if p.1 = "k" then p.2.toNat? else none),
           (field af).bind (fun p => if p.1 = "a" then parseHex p.2 else none),
           (field qf).bind (fun p => if p.1 = "q" then parseHex p.2 else none) with
